@@ -45,12 +45,45 @@ class SimClock(object):
 clock = SimClock()
 
 
+def _install_arena_cache():
+  """Performance only (see native/arena_cache.c): keep CPython's frame-stack chunks and obmalloc
+  arenas on a free list instead of mmap/munmap-ing them ~1000 times per run. Silently skipped if
+  the helper cannot be built or loaded; nothing the engine computes depends on it."""
+  if os.environ.get("GSIM_NO_ARENA_CACHE"):
+    return False
+  try:
+    import ctypes
+    import subprocess
+    so = os.path.join(VERIF_DIR, "build", "arena_cache.so")
+    src = os.path.join(VERIF_DIR, "native", "arena_cache.c")
+    if not os.path.exists(so) or os.path.getmtime(so) < os.path.getmtime(src):
+      os.makedirs(os.path.dirname(so), exist_ok=True)
+      tmp = "%s.%d.tmp" % (so, os.getpid())
+      for cc in ("gcc", "cc", "clang"):
+        try:
+          subprocess.run([cc, "-O2", "-shared", "-fPIC", "-o", tmp, src], check=True,
+                         capture_output=True, timeout=60)
+          os.rename(tmp, so)
+          break
+        except Exception:      # pylint: disable=broad-except
+          continue
+    lib = ctypes.CDLL(so, mode=ctypes.RTLD_GLOBAL)
+    lib.gsim_install()
+    return True
+  except Exception:            # pylint: disable=broad-except
+    return False
+
+
+arena_cache_installed = False
+
+
 def boot():
   """Import the engine from GRIST_SRC and install seams. Idempotent."""
-  global _booted
+  global _booted, arena_cache_installed
   if _booted:
     return
   _booted = True
+  arena_cache_installed = _install_arena_cache()
   sys.dont_write_bytecode = True
   for k in _SCRUB_ENV:
     os.environ.pop(k, None)
